@@ -1400,6 +1400,14 @@ func runCase(r *vkit.Run, cs caseSpec) {
 						dp = append(dp, i)
 					}
 				}
+				if key == "query:fallback-not-tried" {
+					for _, m := range union(o.StubMains, o.ExtraMains) {
+						if mm[m] == mClosed && dead[m] {
+							key += ":pooled-tcp-connection-died"
+							what += " (the handler held a pooled TCP connection to the main upstream, which closed it and stopped listening)"
+						}
+					}
+				}
 				fail(key, what, si, map[string]any{"model_active": active, "main_modes": st.Modes[:cs.M], "fallback_modes": st.Modes[cs.M:],
 					"stubs_whose_pooled_tcp_connections_were_torn_down": dp})
 				return
@@ -1879,9 +1887,9 @@ func TestCheck(t *testing.T) {
 	r := vkit.Start(t, "C17", "fault_enumeration")
 	defer r.Finish()
 	r.Rule("sequential: seeded schedules of queries / Refresh rounds (immediately, after about half the back-off, or clearly beyond it) against the real forward.Handler with M in {1,2,3} mains and " +
-		"F in {0,1,2} fallbacks (all nine combinations), back-off in {0, 450ms, 750ms, 1h}; every stub has a scripted behaviour per step out of " +
+		"F in {0,1,2} fallbacks (all nine combinations), back-off in {0, 450ms, 750ms, 1h}, upstream networks all-any / all-tcp / mixed any,tcp,udp; every stub has a scripted behaviour per step out of " +
 		"up, upcase (valid reply, question re-cased), trunc (TC over UDP, answer over TCP), servfail, wrongid, wrongname, wrongtype, noquestion, short (<17 bytes), " +
-		"silent (timeout), closed (port closed). Odd cases start with a fail/detect/recover-inside-backoff/recover-beyond-backoff template, the rest is a random walk. " +
+		"silent (timeout), closed (port closed). Half of the cases start with a fail/detect/recover-inside-backoff/recover-beyond-backoff template, a quarter with a template that lets every upstream answer (connections pooled), then closes upstreams together with their accepted connections and queries before any Refresh; the rest is a random walk. " +
 		"distinct = (M, F, back-off class, set of event kinds the oracle matched in the case); non-trivial = the set holds something else than plain main answers " +
 		"and all-ok refreshes (a fail-over, a rejected reply, a failed probe, a back-off skip, a recovery ...). " +
 		"concurrent: queries from 6 goroutines concurrent with Refresh under the race detector, judged against the union of the active sets before/after")
@@ -1945,6 +1953,10 @@ func TestCheck(t *testing.T) {
 		"queries_answered_by_recovered_main":                50,
 		"nofallback_main_used_after_failing_during_refresh": 100,
 		"concurrent_phase_queries":                          300,
+		"dead_pooled_tcp:main_failover":                     12,
+		"dead_pooled_tcp:fallback_error":                    8,
+		"dead_pooled_tcp:main_no_fallbacks_error":           8,
+		"queries_main_truncated_reply_relayed_udp_only":     8,
 	} {
 		r.Require(b, min)
 	}
